@@ -178,7 +178,9 @@ impl Command for Emit {
             e["vars"] = vars_json(ctx.variables);
         }
         self.log.borrow_mut().push(e);
-        CommandResult::Continue(None)
+        // a truthy output that no line stores: a value left over from the last statement of a function body must not become
+        // the value of a call that ends without `return <value>`
+        CommandResult::Continue(Some("emitted".into()))
     }
 }
 
